@@ -87,32 +87,73 @@ def run(chk, tier):
     r = ret.payloads[0][0]
     errv = ret.payloads[1][0]
     recs = [x for x in ev.loops_log if x.body == key]
-    if len(recs) != 1:
+    warm = None
+    if len(recs) == 2:
+        # the same 400 probes as a warm-up loop of 100 followed by a measuring loop of 300
+        by = sorted(recs, key=lambda r_: r_.trip or 0)
+        if by[0].trip == 100 and by[1].trip == 300 and recs.index(by[0]) < recs.index(by[1]):
+            warm, rec = by
+        else:
+            chk.ob("R0", "test_timer|probe loops", False, "two loops with trip bounds %s (expected 100 warm-up probes, then 300 measured ones)" % (
+                [r_.trip for r_ in recs],), where=where)
+            return
+        chk.ob("R3", "probe loops|100 cache-clearing probes, then 300 measured ones", True, "", where=where)
+    elif len(recs) == 1:
+        rec = recs[0]
+        chk.ob("R3", "probe loop|constant trip count 400 (100 cache-clearing + 300 measured)", rec.trip == 400, "trip bound %s" % rec.trip, where=where)
+    else:
         chk.ob("R0", "test_timer|one probe loop", False, "%d summarised loops in test_timer" % len(recs), where=where)
         return
-    rec = recs[0]
-    chk.ob("R3", "probe loop|constant trip count 400 (100 cache-clearing + 300 measured)", rec.trip == 400, "trip bound %s" % rec.trip, where=where)
+    nguards = 5 if warm is None else 6
 
     # ---- structure of the discriminant: in-loop exits first, then the four post-loop guards
     ch, last = chain(ret.discr)
-    oks = len(ch) == 5 and last.op == "const" and last.aux == 0 and all(v.op == "const" and v.aux == 1 for _, v in ch)
-    chk.ob("R3", "result|Ok iff no guard fires: discriminant is a chain of five guards", oks, "discriminant %s" % T.show(ret.discr, 8), where=where)
+    oks = len(ch) == nguards and last.op == "const" and last.aux == 0 and all(v.op == "const" and v.aux == 1 for _, v in ch)
+    chk.ob("R3", "result|Ok iff no guard fires: discriminant is a chain of %d guards" % nguards, oks, "discriminant %s" % T.show(ret.discr, 8), where=where)
     if not oks:
         return
     # the guard that says "still inside the probe loop" (an in-loop exit), and the four post-loop guards in the documented order;
     # the order inside the normal form is immaterial, each guard is recognised by its shape and by the error it returns alone
     conds = [c for c, _ in ch]
-    lts = [c for c in conds if c.op == "ult" and c.args[1].op == "const" and c.args[1].aux == 400 and c.args[0].op in ("sym", "rng")]
-    lt = lts[0] if len(lts) == 1 else conds[0]
-    ivar = lt.args[0] if lt.op == "ult" and lt.args[1].op == "const" and lt.args[1].aux == 400 else None
-    rest = [c for c in conds if c is not lt]
+    def loop_test(k_):
+        hits = [c for c in conds if c.op == "ult" and c.args[1].op == "const" and c.args[1].aux == k_ and c.args[0].op in ("sym", "rng")]
+        return hits[0] if len(hits) == 1 else None
+    ltw = None
+    measured = None  # extra condition under which an iteration of the single loop is a measured one
+    if warm is None:
+        lt = loop_test(400)
+        if lt is not None:
+            ivar = lt.args[0]
+            measured = T.bnot(T.ult(ivar, T.const(100, ivar.w)))
+        else:
+            # counted downwards in two phases: `while remaining != 0 { ...; if warm_up != 0 { warm_up -= 1; continue } ...; remaining -= 1 }`
+            byinit = {}
+            for n_, wh_, init_, t_, rng_ in rec.vars:
+                if isinstance(init_, T.T) and init_.op == "const" and isinstance(t_, T.T):
+                    byinit.setdefault(init_.aux, []).append(t_)
+            rem = [t_ for t_ in byinit.get(300, []) if T.bnot(T.eqz(t_)) in conds]
+            wup = byinit.get(100, [])
+            if len(rem) == 1 and len(wup) == 1:
+                lt = T.bnot(T.eqz(rem[0]))
+                ivar = rem[0]
+                measured = T.eqz(wup[0])
+            else:
+                lt = conds[0]
+                ivar = None
+    else:
+        lt, ltw = loop_test(300), loop_test(100)
+        if lt is None or ltw is None:
+            chk.ob("R3", "guards|anchors", False, "loop tests of the warm-up and measuring loops not found among the guards", where=where)
+            return
+        ivar = lt.args[0]
+    rest = [c for c in conds if c is not lt and c is not ltw]
     errv_ = ret.payloads[1][0]
     edis_ = errv_.discr if isinstance(errv_, EnumV) else None
 
     def alone(c):
         s2 = st.fork()
         s2.assume = ()
-        for a_ in [T.bnot(lt)] + [T.bnot(o) for o in rest if o is not c] + [c]:
+        for a_ in [T.bnot(lt)] + ([T.bnot(ltw)] if ltw is not None else []) + [T.bnot(o) for o in rest if o is not c] + [c]:
             add_assume(s2, a_)
         d_ = LP.simplify_under(ev, s2, edis_) if isinstance(edis_, T.T) else None
         return VARIANTS[d_.aux] if d_ is not None and d_.op == "const" and d_.aux < len(VARIANTS) else None
@@ -168,41 +209,64 @@ def run(chk, tier):
         d = LP.simplify_under(ev, s2, edis) if isinstance(edis, T.T) else T.const(edis, 64)
         return VARIANTS[d.aux] if d.op == "const" and d.aux < len(VARIANTS) else T.show(d, 3)
     nl = T.bnot(lt)
-    pre = [nl]
+    pre = [nl] + ([T.bnot(ltw)] if ltw is not None else [])
     for (name, op, cpos, cval, text), c in zip(shapes, g):
         got = variant_under(pre + [c])
         chk.ob("R3", "guard %s|returns Err(%s)" % (name, name), got == name, "returns %s" % got, where=where)
         pre.append(T.bnot(c))
     # ---- in-loop exits: readings of one probe
-    tcalls = [c for c in rec.calls if c[1].endswith("core::ops::Fn<()>>::call") or "Fn<()>>::call" in c[1]]
-    chk.ob("R3", "probe|four timer readings per iteration", len(tcalls) == 4, "%d readings" % len(tcalls), where=where, nontrivial=False)
-    if len(tcalls) == 4:
-        r1 = T.atom("res", 64, (tcalls[0][4],), "ret")
-        r4 = T.atom("res", 64, (tcalls[3][4],), "ret")
-        d32 = T.trunc(T.sub(r4, r1), 32)
-        z1, z4, zd = T.eqz(r1), T.eqz(r4), T.eqz(d32)
+    def probe_exits(rec_, lt_, label, outer):
+        tcalls_ = [c for c in rec_.calls if c[1].endswith("core::ops::Fn<()>>::call") or "Fn<()>>::call" in c[1]]
+        chk.ob("R3", "%sprobe|four timer readings per iteration" % label, len(tcalls_) == 4, "%d readings" % len(tcalls_), where=where, nontrivial=False)
+        if len(tcalls_) != 4:
+            return None
+        r1_ = T.atom("res", 64, (tcalls_[0][4],), "ret")
+        r4_ = T.atom("res", 64, (tcalls_[3][4],), "ret")
+        d32_ = T.trunc(T.sub(r4_, r1_), 32)
+        z1_, z4_, zd_ = T.eqz(r1_), T.eqz(r4_), T.eqz(d32_)
         expect = {
-            "loop exit": T.bnot(lt),
-            "NoTimer (first reading 0)": T.and1([lt, z1]),
-            "NoTimer (second reading 0)": T.and1([lt, T.bnot(z1), z4]),
-            "CoarseTimer (32-bit delta 0)": T.and1([lt, T.bnot(z1), T.bnot(z4), zd]),
+            "loop exit": T.bnot(lt_),
+            "NoTimer (first reading 0)": T.and1([lt_, z1_]),
+            "NoTimer (second reading 0)": T.and1([lt_, T.bnot(z1_), z4_]),
+            "CoarseTimer (32-bit delta 0)": T.and1([lt_, T.bnot(z1_), T.bnot(z4_), zd_]),
         }
-        got = {c for c, h, a in rec.exits}
-        for name, e in expect.items():
-            chk.ob("R3", "in-loop exit|%s" % name, e in got, "expected exit condition %s not among the loop's exits" % T.show(e, 3), where=where)
-        chk.ob("R3", "in-loop exits|no other exit", len(got) == 4, "%d exits" % len(got), nontrivial=False)
-        for name, e, var in (("NoTimer (first reading 0)", expect["NoTimer (first reading 0)"], "NoTimer"),
-                             ("NoTimer (second reading 0)", expect["NoTimer (second reading 0)"], "NoTimer"),
-                             ("CoarseTimer (32-bit delta 0)", expect["CoarseTimer (32-bit delta 0)"], "CoarseTimer")):
-            gotv = variant_under([e])
-            chk.ob("R3", "in-loop exit|%s returns Err(%s)" % (name, var), gotv == var, "returns %s" % gotv, where=where)
+        got = {c for c, h, a in rec_.exits}
+        merged = T.and1([lt_, T.bnot(T.and1([T.bnot(z1_), T.bnot(z4_), T.bnot(zd_)]))])
+        if len(got) == 2 and merged in got and expect["loop exit"] in got:
+            # the probe lives in a helper whose error is propagated with `?`: one exit for "some reading or the delta is zero"
+            chk.ob("R3", "%sin-loop exit|left with an error exactly when a reading or the 32-bit delta is zero" % label, True, "", where=where)
+        elif len(got) == 3 and expect["loop exit"] in got and \
+                T.and1([lt_, T.ite(T.ult(r1_, r4_), z1_, z4_)]) in got and \
+                T.and1([lt_, T.bnot(T.ite(T.ult(r1_, r4_), z1_, z4_)), zd_]) in got:
+            # `min(time, time2) == 0` for `time == 0 || time2 == 0` (unsigned: the smaller one is zero iff one of them is)
+            chk.ob("R3", "%sin-loop exit|NoTimer when the smaller reading is 0, CoarseTimer when the 32-bit delta is 0" % label, True, "", where=where)
+            expect = {"NoTimer (first reading 0)": T.and1([lt_, z1_]), "NoTimer (second reading 0)": T.and1([lt_, T.bnot(z1_), z4_]),
+                      "CoarseTimer (32-bit delta 0)": T.and1([lt_, T.bnot(z1_), T.bnot(z4_), zd_])}
+        else:
+            for name, e in expect.items():
+                chk.ob("R3", "%sin-loop exit|%s" % (label, name), e in got, "expected exit condition %s not among the loop's exits" % T.show(e, 3), where=where)
+            chk.ob("R3", "%sin-loop exits|no other exit" % label, len(got) == 4, "%d exits" % len(got), nontrivial=False)
+        for name, var in (("NoTimer (first reading 0)", "NoTimer"), ("NoTimer (second reading 0)", "NoTimer"),
+                          ("CoarseTimer (32-bit delta 0)", "CoarseTimer")):
+            gotv = variant_under(outer + [expect[name]])
+            chk.ob("R3", "%sin-loop exit|%s returns Err(%s)" % (label, name, var), gotv == var, "returns %s" % gotv, where=where)
+        return r1_, r4_, d32_, z1_, z4_, zd_
+    if warm is not None:
+        probe_exits(warm, ltw, "warm-up ", [])
+        # the warm-up probes only look at the readings: nothing that is evaluated later may be written there
+        later = {tuple(wh_) for n_, wh_, init_, t_, rng_ in rec.vars if t_ in (vars_[0], vars_[1], vars_[2], vars_[3])}
+        touched = [n_ for n_, wh_, init_, t_, rng_ in warm.vars if tuple(wh_) in later]
+        chk.ob("R3", "warm-up loop|does not touch the counters", not touched, "written in the warm-up loop: %s" % touched, where=where)
+    pe = probe_exits(rec, lt, "", [T.bnot(ltw)] if ltw is not None else [])
+    if pe is not None:
+        r1, r4, d32, z1, z4, zd = pe
         # counters: increments in measured iterations (i >= 100) on the continue path
         if rec.conts:
             cond, nxt, world, assume = rec.conts[0]
             s3 = st.fork()
             s3.assume = tuple(assume)
-            clear = [a for a in [T.ult(ivar, T.const(100, ivar.w))]]
-            add_assume(s3, T.bnot(clear[0]))
+            if warm is None and measured is not None:
+                add_assume(s3, measured)  # measured iterations of the single loop
             for a_ in (lt, T.bnot(z1), T.bnot(z4), T.bnot(zd)):
                 add_assume(s3, a_)
             names = {v.aux if v.op == "sym" else v.aux[0]: v for v in (tb, ds, cm, cs)}
@@ -240,9 +304,11 @@ def run(chk, tier):
     # ---- R2: sufficiency
     mean = T.udiv(ds, T.const(TESTLOOP, 64))
     okb = r.op == "ite" and r.args[0] is T.ult(mean, T.const(16, 64))
+    swapped = r.op == "ite" and r.args[0] is T.ult(T.const(15, 64), mean)  # `match mean { 0..=15 => table, _ => formula }`
+    okb = okb or swapped
     chk.ob("R2", "Ok(r)|table for mean < 16, formula otherwise", okb, "value %s" % T.show(r, 4), where=where)
     if okb:
-        tab, form = r.args[1], r.args[2]
+        tab, form = (r.args[2], r.args[1]) if swapped else (r.args[1], r.args[2])
         oktab = tab.op == "select" and tab.args[0].op == "arrlit" and tab.args[1] is mean and len(tab.args[0].args) == 16
         chk.ob("R2", "table branch|lookup at the mean in a 16-entry constant table", oktab, T.show(tab, 3), where=where)
         if oktab:
